@@ -259,8 +259,12 @@ def bounded(tier, seed, repo_root):
               {2: "hello world, hello", 10: "goodbye moon, goodbye", "1x": "alpha beta gamma", "1y": "delta epsilon"},
               {2: "goodbye moon, goodbye", 10: "hello world, hello", "1x": "delta epsilon", "1y": "alpha beta gamma"},
               {9: "n", 10: "t", "5": "aaaaaaaaaaaa", "6": "zzzzzzzzzzzz"}, {9: "n", 10: "t", "5": "zzzzzzzzzzzz", "6": "aaaaaaaaaaaa"},
-              {True: 1, 5: "five five five", "6": "six six six"}, {True: 2, 5: "six six six", "6": "five five five"}]
-    pj = [(a, b, o) for a in tricky for b in tricky for o in gt.OPTION_COMBOS[:6:2] if a is not b]
+              {True: 1, 5: "five five five", "6": "six six six"}, {True: 2, 5: "six six six", "6": "five five five"},
+              # distinct keys that a normalisation would identify (letter case, Unicode composition, case folding of sharp s, trailing
+              # blank, numeric spelling), with equal values so that several pairings cost the same
+              {"a": 1, "A": 1}, {"b": 1, "B": 1}, {"a": 1, "A": 1, "list": [1]}, {"B": 1, "b": 1, "list": [1]}, {"id": "x", "ID": "x", "Id": "x"},
+              {"key": "x", "KEY": "x"}, {"\u00e9": 1, "e\u0301": 1}, {"\u00df": 1, "ss": 1, "SS": 1}, {"k": 1, "k ": 1}, {"1": 1, "01": 1, "1.0": 1}]
+    pj = [(a, b, o) for a in tricky for b in tricky for o in gt.OPTION_COMBOS[:6:2] if a is not b and (tier != 'quick' or abs(tricky.index(a) - tricky.index(b)) <= 12)]
     for _ in range(700 if tier == 'quick' else 7000):
         pj.append((rnd.choice(maps), rnd.choice(maps), gt.OPTION_COMBOS[rnd.randrange(9)]))
     fails = [f for fs in pmap(_perm_job, pj, repo_root, job_timeout=60, on_timeout=timeout_failure('C08')) for f in fs]
